@@ -33,6 +33,18 @@ CLAIMED = {
     ),
 }
 
+CLAIMED["C19"] = (
+    "TLA+ state machine (RuleDB.tla) checked exhaustively by TLC; every TLC-generated operation history "
+    "replayed into the real RuleImputeManager; recorded histories validated by TLC trace specification",
+    "TLC explores every operation sequence up to the bound over an alphabet of valid, invalid, duplicate "
+    "and charged entries from an empty, a consistent and an inconsistent seed database (invariant + "
+    "action properties), each reachable history is replayed into the real manager and the logged "
+    "database after every call is compared by TLC with the specification's next state; random longer "
+    "histories start from both shipped databases.",
+    "5/C19",
+    "",
+)
+
 PENDING_REASON = "check not built yet in this round (planned, see DESIGN.md section 5); not claimed until it passes on the unchanged tree"
 
 
